@@ -469,21 +469,20 @@ Definition writer_limits (ordered : bool) (limit offset : option N) : option N *
 
 (** * Column kinds on which [scalar_compare] is the typed order *)
 
-(** i64 columns: Int64 / Timestamp cells and i64-parsable strings *)
+(** i64 / datetime columns: Int64 and Timestamp cells *)
 Definition is_intlike (v : value) : bool :=
   match v with
   | VNull | VInt _ | VTs _ => true
-  | VStr s => match parse_i64 s with None => false | _ => true end
   | _ => false
   end.
 
-(** u64 columns: non-negative Int64 / Timestamp cells and u64-parsable strings
-    (a u64 value above i64::MAX is held as Utf8 by [ScalarValue::from]) *)
+(** u64 columns: non-negative Int64 / Timestamp cells, and values above i64::MAX,
+    which [ScalarValue::from] holds as Utf8 decimal strings *)
 Definition is_u64like (v : value) : bool :=
   match v with
   | VNull => true
   | VInt z | VTs z => 0 <=? z
-  | VStr s => match parse_u64 s with None => false | _ => true end
+  | VStr s => match parse_u64 s with Some z => i64_hi <? z | None => false end
   | _ => false
   end.
 
